@@ -73,7 +73,7 @@ def gen_cases(rng, tier):
     n = {"quick": 120, "thorough": 3000, "search": 500}[tier]
     cases = []
     r = rng.fork("impl2ref")
-    types = [t for t in V.SERIALISABLE if t not in ("net.ipaddress", "net.IPAddress")]
+    types = list(V.SERIALISABLE)
     for _ in range(n):
         descs = [V.gen_descspec(r, types=types) for _ in range(r.randint(1, 2))]
         recs = [V.gen_record(r, descspec=r.choice(descs), types=types) for _ in range(r.randint(1, 5))]
@@ -95,6 +95,18 @@ def gen_cases(rng, tier):
             if r.chance(30):
                 seq.insert(r.randint(0, 2), mk(r.choice([A, B, C])))
             case["records"] = recs[:r.randint(0, 2)] + seq + recs[2:]
+        elif w < 9:
+            # list fields that received elements IN PLACE after the record was built (plain values: the typed list
+            # converts them when the record is packed): the stream must hold the elements' published encodings
+            lt = r.choice(["path[]", "net.ipaddress[]", "digest[]", "command[]", "uint16[]", "net.ipnetwork[]", "string[]"])
+            ds = ["t/app", [["varint", "n"], [lt, "items"]]]
+            raw = {"path[]": [V.S("/tmp/x"), V.S("rel/y"), V.S("")], "net.ipaddress[]": [["ip", "10.0.0.1"], ["ip", "::1"],
+                   ["ip", "2001:db8::1"], ["ipint", str(2 ** 32)]], "digest[]": [["digest", ["d41d8cd98f00b204e9800998ecf8427e", None, None]]],
+                   "command[]": [V.S("ls -la /tmp"), V.S("/bin/true")], "uint16[]": [V.I(7), V.I(65535)],
+                   "net.ipnetwork[]": [["ipnet", "10.0.0.0/8"], ["ipnet", "2001:db8::/32"]], "string[]": [V.S("x"), V.S("")]}[lt]
+            first = [r.choice(raw) for _ in range(r.randint(0, 2))]
+            extra = [r.choice(raw) for _ in range(r.randint(1, 3))]
+            case["records"] = recs[:r.randint(0, 1)] + [["rec", ds, [V.I(r.below(100)), ["list", first]], {"_append": {"items": extra}, "_generated": V.gen_dt_spec(r, tzkinds=("utc",), fold_ok=False)}]]
         cases.append(case)
     r = rng.fork("ref2impl")
     for _ in range(n):
@@ -293,6 +305,79 @@ def walk_stream(data):
     return None
 
 
+def decode_independent(data):
+    """top-level records of an implementation-written stream as an independent msgpack decoder sees them: per record
+    (or per member of a grouped record) the list of packed values in RV JSON; None where the walk cannot follow"""
+    import msgpack
+
+    def unpack(b):
+        return msgpack.unpackb(b, raw=False, use_list=False, unicode_errors="surrogateescape", strict_map_key=False,
+                               ext_hook=lambda c, d: ("__ext__", c, d))
+
+    def rv(v):
+        if v is None:
+            return ["N"]
+        if isinstance(v, bool):
+            return ["B", v]
+        if isinstance(v, int):
+            return ["I", str(v)]
+        if isinstance(v, float):
+            return ["F", struct.pack(">d", v).hex()]
+        if isinstance(v, str):
+            return ["S", V.enc_str(v)]
+        if isinstance(v, bytes):
+            return ["Y", v.hex()]
+        if isinstance(v, tuple) and len(v) == 3 and v[0] == "__ext__":
+            sub, payload = unpack(v[2])
+            if sub == 0x11:
+                n = int.from_bytes(payload[1], "big")
+                return ["I", str(-n if payload[0] else n)]
+            return ["EXT", sub]
+        if isinstance(v, tuple):
+            return ["T", [rv(x) for x in v]]
+        return ["?", type(v).__name__]
+
+    out = []
+    try:
+        frames, _ = W.split_frames(data)
+        for off, body in frames[1:]:
+            top = unpack(body)
+            sub, payload = unpack(top[2])
+            if sub == 1:
+                out.append([None, [rv(x) for x in payload[1]]])
+            elif sub == 0x12:
+                out.append(["G", [[rv(x) for x in m[1]] for m in payload[1]]])
+    except Exception:          # noqa: BLE001
+        return None
+    return out
+
+
+def ref_pack(kind, tv):
+    """the published encoding of a typed field value, written from the format description (RV JSON); the Lean field
+    layer states the same and is compared separately"""
+    if tv[0] == "U":
+        return ["N"]
+    if isinstance(kind, list):
+        return ["T", [ref_pack(kind[1], x) for x in tv[1]]]
+    if kind == "text":
+        return ["S", tv[1]]
+    if kind in ("int", "float", "bool", "bytes"):
+        return [{"int": "I", "float": "F", "bool": "B", "bytes": "Y"}[kind], tv[1]]
+    if kind == "digest":
+        return ["T", [["N"] if x is None else ["Y", bytes.fromhex(V.dec_str(x)).hex()] for x in tv[1:4]]]
+    if kind == "path":
+        return ["T", [["S", tv[2]], ["I", str(tv[1])]]]
+    if kind == "command":
+        if tv[2] is None:
+            return ["T", [["N"], ["I", str(tv[1])]]]
+        return ["T", [["T", [["S", tv[2]], ["T", [["S", a] for a in tv[3]]]]], ["I", str(tv[1])]]]
+    if kind == "ip":
+        return ["I", tv[2]]
+    if kind == "ipnet":
+        return ["S", tv[1]]
+    raise ValueError(kind)
+
+
 def _read(data):
     from flow.record import RecordStreamReader
     try:
@@ -330,8 +415,11 @@ def run_real(case):
             hashes = []
             for r in recs:
                 W.all_descs(r, hashes)
-            return {"stream": data.hex(), "expected_rvs": [W.to_rv(r) for r in recs], "hashes": hashes,
-                    "walk": walk_stream(data)}
+            # what the stream must hold is derived from records that had every element from the start
+            eq = [V.build(V.merge_append(s)) if s[0] == "rec" and len(s) > 3 and (s[3] or {}).get("_append") else r
+                  for s, r in zip(case["records"], recs)]
+            return {"stream": data.hex(), "expected_rvs": [W.to_rv(r) for r in eq], "hashes": hashes,
+                    "walk": walk_stream(data), "typed": _typed_fields(eq), "held": decode_independent(data)}
         if k == "ref2impl":
             data = build_ref_stream(case)
             got, err = _read(data)
@@ -360,6 +448,28 @@ def run_real(case):
     raise ValueError(k)
 
 
+def _typed_fields(recs):
+    """[[record index, member index or None, slot, kind, TVal]] for the fields whose published encoding the Lean
+    field layer (Model/FieldPack.lean) states: the typed value is observed through its public attributes, NOT _pack()"""
+    from flow.record import GroupedRecord
+    from .C01 import FIELD_KINDS, kind_of, tval_of
+    out = []
+    for i, rec in enumerate(recs):
+        members = list(enumerate(rec.records)) if isinstance(rec, GroupedRecord) else [(None, rec)]
+        for mi, m in members:
+            for slot, (t, name) in enumerate(m._desc.get_field_tuples()):
+                if (t[:-2] if t.endswith("[]") else t) in FIELD_KINDS:
+                    try:
+                        out.append([i, mi, slot, kind_of(t), tval_of(getattr(m, name), t)])
+                    except Exception:      # noqa: BLE001  (a value object that cannot be observed)
+                        out.append([i, mi, slot, kind_of(t), ["?"]])
+    return out
+
+
+def _pv_as_rv(j):
+    return ["T", [_pv_as_rv(x) for x in j[1]]] if j[0] == "L" else j
+
+
 def _first_diff(a, b):
     from .C01 import first_diff
     return first_diff(a, b)
@@ -375,6 +485,24 @@ def oracle(case, obs):
     if k == "impl2ref":
         if obs["walk"]:
             return "implementation-written stream does not conform to the published layout: " + obs["walk"]
+        held = obs.get("held")
+        if held is None:
+            return "implementation-written stream cannot be followed by an independent msgpack decoder"
+        tops = [h for h in held]
+        if len(tops) != len(case["records"]):
+            return f"{len(case['records'])} records written, an independent decoder finds {len(tops)} record frames"
+        for i, mi, slot, kind, tv in obs.get("typed", []):
+            if tv == ["?"]:
+                continue
+            try:
+                vals = tops[i][1] if mi is None else tops[i][1][mi]
+                got = vals[slot]
+            except Exception:          # noqa: BLE001
+                return f"record {i}: slot {slot} is missing from what an independent decoder reads"
+            want = ref_pack(kind, tv)
+            if got != want:
+                return (f"record {i} slot {slot} ({kind if isinstance(kind, str) else kind[1] + '[]'}): the stream holds "
+                        f"{json.dumps(got)[:140]}, the published encoding of the value written is {json.dumps(want)[:140]}")
         return None
     if obs["error"]:
         return f"conforming stream ({k}) is not read: {obs['error']}"
@@ -392,6 +520,9 @@ def model_op(case, obs):
         return {"op": "ident", "name": V.enc_str(case["name"]),
                 "fields": [[V.enc_str(t), V.enc_str(n)] for t, n in case["fields"]]}
     # no "hashes" table: the model reader identifies received descriptors by the published rule itself
+    if case["kind"] == "impl2ref":
+        return [{"op": "wire_read", "hex": obs["stream"]}] + \
+            [{"op": "c01_field", "kind": k, "val": tv} for _, _, _, k, tv in obs.get("typed", [])]
     return {"op": "wire_read", "hex": obs["stream"]}
 
 
@@ -401,6 +532,9 @@ def compare(case, obs, mo):
         if mo.get("hash") != obs["identifier"][1]:
             return f"descriptor hash: model (Spec.descriptorHash) {mo.get('hash')} vs implementation {obs['identifier'][1]}"
         return None
+    packs = []
+    if k == "impl2ref":
+        mo, packs = mo[0], mo[1:]
     if "records" not in mo:
         return f"model error: {mo}"
     got = W.canon_model_rv(mo["records"])
@@ -408,7 +542,22 @@ def compare(case, obs, mo):
         if mo["end"] != "eof":
             return f"reference reader ends with {mo['end']} on an implementation-written stream"
         d = _first_diff(obs["expected_rvs"], got)
-        return ("reference decoder reads the implementation's bytes as different records than were written: " + d) if d else None
+        if d:
+            return "reference decoder reads the implementation's bytes as different records than were written: " + d
+        # field values: the model's field layer packs the typed value; the stream must hold exactly that
+        for (i, mi, slot, kind, tv), pk in zip(obs.get("typed", []), packs):
+            if not isinstance(pk, dict) or pk.get("packed") is None:
+                return f"record {i} slot {slot}: the field layer of the model cannot pack {tv} as {kind}"
+            try:
+                rec = got[i] if mi is None else got[i][2][mi]
+                held = rec[2][slot]
+            except Exception:          # noqa: BLE001
+                return f"record {i} slot {slot}: not present in what the reference decoder read"
+            want = _pv_as_rv(pk["packed"])
+            if held != want:
+                return (f"record {i} slot {slot} ({kind}): the stream holds {json.dumps(held)[:160]}, the published "
+                        f"encoding of the value written is {json.dumps(want)[:160]}")
+        return None
     if obs["error"] is None:
         if mo["end"] != "eof":
             return f"reference reader ends with {mo['end']}, implementation reads cleanly"
